@@ -57,7 +57,7 @@ def run(rep: Report, ctx: Any) -> str:
     rep.rule("R16.2", "every read of a Config field happens in the function/template documented for that option (a read inside a private "
                       "helper that has no documented effect of its own belongs to the functions that call the helper; field_prefix / "
                       "file_encoding are documented by where their value ends up - the prefix of a name constructor, the encoding of a "
-                      "write - directly, through a local or through a parameter of a private helper used for nothing else); no option is unread")
+                      "text write (write_text / open for writing; never of something that reads or decodes) - directly, through a local or through a parameter of a private helper used for nothing else); no option is unread")
     rep.rule("R16.3", "uniform application: every text write in the package (write_text / open for writing) passes "
                       "encoding=<Config>.file_encoding; every name constructor on document text "
                       "passes config.field_prefix (either one also through a local alias or a parameter of a private helper, judged at every "
@@ -69,6 +69,11 @@ def run(rep: Report, ctx: Any) -> str:
                       "builder renders the module of every (collection, endpoint) pair from that very endpoint on every path")
     rep.rule("R16.5", "project_name_override / package_name_override: where the package name is not overridden it is converted from the "
                       "project name in effect (override included) by replacing `-` with `_`")
+
+    rep.rule("R16.6", "content_type_overrides is keyed by the media type as the document spells it: every consultation of the table in "
+                      "get_content_type (private helpers inlined, executed symbolically: `.get(k, ...)`, `[k]`, `k in`, `k == <one of its keys>`) "
+                      "uses as k the media-type parameter itself - not something computed from it, which would match other entries than "
+                      "the ones the user wrote")
 
     cfgc = ix.cls("Config")
     cff = ix.cls("ConfigFile")
@@ -113,7 +118,8 @@ def run(rep: Report, ctx: Any) -> str:
         allowed = ALLOWED.get(fld)
         rep.require(allowed is not None, f"documented readers of {fld}")
         extra = sorted(reads[fld] - allowed)
-        rep.check(not extra, "R16.2", f"Config.{fld}::readers", f"option `{fld}` is consulted in {extra}: it acquires an effect the documentation "
+        hint = f" (its value ends up somewhere else than in {_VALUE_SINKS[fld][2]})" if fld in _VALUE_SINKS else ""
+        rep.check(not extra, "R16.2", f"Config.{fld}::readers", f"option `{fld}` is consulted in {extra}{hint}: it acquires an effect the documentation "
                   "does not describe", where="", lhs=sorted(reads[fld]), rhs=sorted(allowed))
         rep.check(bool(reads[fld] - {"config.Config.from_sources"}), "R16.2", f"Config.{fld}::has-reader", f"option `{fld}` is never read: its effect is lost",
                   where="", lhs=sorted(reads[fld]), rhs="at least one reader")
@@ -166,6 +172,7 @@ def run(rep: Report, ctx: Any) -> str:
                           lhs=sorted({norm(v) for _, v in srcs}), rhs="config.field_prefix")
     rep.floor("name_constructor_sites", n_pi, 12)
     _r163_media_types(rep, ix)
+    _r166_override_key(rep, ix, cfgc)
     # ---- R16.4 --------------------------------------------------------------------------------------------------------------
     _r164_tags(rep, ix, callers)
     _r164_builder(rep, ix)
@@ -217,12 +224,12 @@ def _param_names(f: Any) -> set[str]:
 
 
 def _reaches_only(ix: Any, f: Any, n: ast.AST, sink: Any, depth: int = 3) -> bool:
-    """the value of expression n (in f) is used only in a position `sink(parent, node)` accepts: directly, through a local that it is
-    assigned to and that is used nowhere else, or as the argument of a private helper whose parameter is used nowhere else"""
+    """the value of expression n (in f) is used only in a position `sink(parent, node, function)` accepts: directly, through a local that
+    it is assigned to and that is used nowhere else, or as the argument of a private helper whose parameter is used nowhere else"""
     par = _parent(f.node, n)
     if par is None:
         return False
-    if sink(par, n):
+    if sink(par, n, f.node):
         return True
     if depth <= 0:
         return False
@@ -311,21 +318,27 @@ def _origins(ix: Any, f: Any, e: ast.AST, callers: dict[str, list[Any]], depth: 
 _NAME_CTORS = ("PythonIdentifier", "ClassName")  # (value, prefix, ...)
 
 
-def _is_prefix_position(par: ast.AST, n: ast.AST) -> bool:
+def _is_prefix_position(par: ast.AST, n: ast.AST, fn: ast.AST) -> bool:
     """the prefix handed to a name constructor: its second argument, or any keyword named `prefix`"""
     if isinstance(par, ast.keyword):
         return par.arg == "prefix"
     return isinstance(par, ast.Call) and len(par.args) > 1 and par.args[1] is n and not isinstance(par.args[0], ast.Starred) and _last(par) in _NAME_CTORS
 
 
-def _is_encoding_position(par: ast.AST, n: ast.AST) -> bool:
-    return isinstance(par, ast.keyword) and par.arg == "encoding"
+def _is_encoding_position(par: ast.AST, n: ast.AST, fn: ast.AST) -> bool:
+    """the encoding of a text WRITE (`write_text` / `open` for writing): the option is documented as the encoding generated files are
+    written in, so an `encoding=` handed to anything that reads or decodes (a template loader, `read_text`, `open` for reading, a
+    subprocess) is another effect.  An `encoding=` of a private helper is judged by where the helper's parameter ends up."""
+    if not (isinstance(par, ast.keyword) and par.arg == "encoding"):
+        return False
+    call = _parent(fn, par)
+    return isinstance(call, ast.Call) and _text_write(call) is not None
 
 
 # options documented by the position their value is used in: marker in ALLOWED, the position
 _VALUE_SINKS = {
-    "field_prefix": ("*name-constructor-argument*", _is_prefix_position),
-    "file_encoding": ("*encoding-argument*", _is_encoding_position),
+    "field_prefix": ("*name-constructor-argument*", _is_prefix_position, "the prefix of a name constructor"),
+    "file_encoding": ("*encoding-argument*", _is_encoding_position, "the encoding= of a text write (write_text / open for writing)"),
 }
 
 
@@ -473,6 +486,98 @@ def _r163_media_types(rep: Report, ix: Any) -> None:
             rep.check(not wrong, "R16.3", "body_from_data::content-type-is-the-documents-key",
                       "the Content-Type that will be sent is the normalised/overridden media type, not the one the document declares", where(made[0][1], made[0][0]),
                       lhs=sorted(sent), rhs=sorted(keys))
+
+
+# ---- R16.6: the key the override table is consulted with ---------------------------------------------------------------------------
+
+_OVERRIDES = "content_type_overrides"
+
+
+def _table_lookups(e: ast.AST, is_table: Any) -> list[tuple[ast.AST, ast.AST]]:
+    """(key expression, lookup) of every place inside e where a table is consulted for one key: `T.get(k, ...)` / `T.pop` / `T.setdefault`,
+    `T[k]`, `k in T` / `k not in T`, and `k == x` / `k != x` where x is one of T's own keys (`T[*]`, `T.keys()[*]`, `T.items()[*][0]`: the
+    loop form of the same lookup)"""
+
+    def key_element(x: ast.AST) -> bool:
+        if isinstance(x, ast.Subscript) and isinstance(x.slice, ast.Constant) and x.slice.value == 0:
+            y = x.value  # T.items()[*][0]
+            return isinstance(y, ast.Subscript) and isinstance(y.slice, ast.Name) and y.slice.id == "*" and isinstance(y.value, ast.Call) and \
+                isinstance(y.value.func, ast.Attribute) and y.value.func.attr == "items" and is_table(y.value.func.value)
+        if isinstance(x, ast.Subscript) and isinstance(x.slice, ast.Name) and x.slice.id == "*":
+            y = x.value
+            if isinstance(y, ast.Call) and call_name(y) in ("list", "tuple", "sorted", "iter") and len(y.args) == 1:
+                y = y.args[0]
+            if isinstance(y, ast.Call) and isinstance(y.func, ast.Attribute) and y.func.attr == "keys":
+                y = y.func.value
+            return is_table(y)
+        return False
+
+    out: list[tuple[ast.AST, ast.AST]] = []
+    for n in ast.walk(e):
+        if isinstance(n, ast.Call) and isinstance(n.func, ast.Attribute) and n.func.attr in ("get", "pop", "setdefault", "__getitem__", "__contains__") and \
+                is_table(n.func.value):
+            k = n.args[0] if n.args else next((kw.value for kw in n.keywords if kw.arg in ("key", "k")), None)
+            if k is not None:
+                out.append((k, n))
+        elif isinstance(n, ast.Subscript) and is_table(n.value) and not (isinstance(n.slice, ast.Name) and n.slice.id == "*"):
+            out.append((n.slice, n))
+        elif isinstance(n, ast.Compare) and len(n.ops) == 1:
+            l, r = n.left, n.comparators[0]
+            if isinstance(n.ops[0], (ast.In, ast.NotIn)):
+                t = r.func.value if isinstance(r, ast.Call) and isinstance(r.func, ast.Attribute) and r.func.attr == "keys" and not r.args else r
+                if is_table(t):
+                    out.append((l, n))
+            elif isinstance(n.ops[0], (ast.Eq, ast.NotEq)):
+                if key_element(l) and not key_element(r):
+                    out.append((r, n))
+                elif key_element(r) and not key_element(l):
+                    out.append((l, n))
+    return out
+
+
+def _r166_override_key(rep: Report, ix: Any, cfgc: Any) -> None:
+    """`content_type_overrides` maps a media type, spelled as in the document (that is how the user copies it into the configuration), to
+    the type it is to be treated as.  The table therefore has to be consulted with the very string the parser hands to the classifier:
+    a key that was normalised first (case, whitespace, parameters stripped, parsed) finds other entries than the configured ones, and the
+    media type is classified by its own name although an override for it exists.  Decided on values: the classifier is executed
+    symbolically with its private helpers inlined, so the key of each lookup is an expression of the classifier's parameters whatever
+    locals it travels through and whether or not the parameter's name is reused for the result."""
+    f = ix.func(f"utils.{_CLASSIFIER}")
+    rep.require(f, f"utils.{_CLASSIFIER}")
+    # the media type is the parameter that is not the configuration
+    others = [p.arg for p in f.params if not (p.annotation is not None and cfgc.name in norm(p.annotation))]
+    rep.require(len(others) == 1, f"the media type parameter of {_CLASSIFIER} (the one parameter that is not annotated as {cfgc.name})")
+    key_param = others[0]
+
+    def is_table(x: ast.AST) -> bool:
+        return isinstance(x, ast.Attribute) and x.attr == _OVERRIDES
+
+    sx = SymExec(ix, watch=lambda c: True, record=True)
+    sx.run(f)
+    # a private helper called anywhere (in a test, as an argument) is executed with the caller's values as well
+    i, done = 0, set()
+    while i < len(sx.hits) and i < 4000:
+        conds, call, g = sx.hits[i]
+        i += 1
+        for a in [call, *call.args, *[k.value for k in call.keywords]]:
+            if sx._helper(a, g) is not None and (g.qual, norm(a)) not in done:
+                done.add((g.qual, norm(a)))
+                sx.values(a, State({}, tuple(conds)), g, 1)
+    exprs: list[ast.AST] = list(sx.recorded or [])
+    for conds, call, _ in sx.hits:
+        exprs += [e for e, _ in conds] + [call]
+    for st, rv in sx.exits:
+        exprs += [e for e, _ in st.conds] + [rv]
+    found: dict[str, tuple[ast.AST, ast.AST]] = {}
+    for e in exprs:
+        for k, at in _table_lookups(e, is_table):
+            found.setdefault(f"{norm(k)} @ {norm(at)}", (k, at))
+    rep.floor("override_table_lookups", len(found), 1)
+    wrong = sorted({norm(k)[:80] for k, _ in found.values() if not (isinstance(k, ast.Name) and k.id == key_param)})
+    rep.check(not wrong, "R16.6", f"{short(f)}::overrides-keyed-by-the-documents-media-type",
+              f"content_type_overrides is consulted with {wrong[:3]} instead of the media type as the document spells it: an override whose key "
+              "differs from that computed form is never found, and the media type is classified by its own name", where(f, f.node),
+              lhs=wrong or key_param, rhs=f"<config>.{_OVERRIDES} looked up by `{key_param}` itself")
 
 
 # ---- R16.4: tags --------------------------------------------------------------------------------------------------------------------
